@@ -75,6 +75,9 @@ func VerifC09ForUpdateHoldsAll() {
 		"select n from a except select n from b for update",
 		"select a.n from a, b for update",
 		"select a.n from a inner join b on a.n < b.n for update",
+		"select a.n from (a inner join b on a.n < b.n) for update",       // the join written in parentheses
+		"select a.n from (a cross join b) left join a as c on c.n = a.n for update",
+		"select a.n from (a), (b) for update",
 	}
 	qi := verifChoice("query", len(src))
 	tx := verifNewTx()
